@@ -639,7 +639,7 @@ def refine_droplet(
         # fit intensities in addition to all droplet parameters
 
         # add vmin and vrng as separate fitting parameters
-        parameters = np.r_[data_flat[free], vmin, vmax]
+        parameters = np.r_[data_flat[free], vmin, vrng]
         bounds = np.r_[bounds[0], vmin - vrng, 0], np.r_[bounds[1], vmax, 3 * vrng]
 
         def _image_deviation(params):
